@@ -297,13 +297,20 @@ pub fn run(id: &str, tier: Tier, seed: u64) -> Report {
         }
     }
 
-    if id == "C01" || id == "C11" {
-        // long chains (hundreds of versions, past every one-byte counter), walked at the end
-        let n = tier.pick(300usize, 1500);
+    if id == "C01" || id == "C11" || id == "C08" {
+        // long chains (hundreds of versions, past every one-byte counter; thousands in memory,
+        // past every two-byte one and any walk limit), walked at the end
         let mut cases = vec![];
-        for backend in [Backend::Mem, Backend::Sqlite] {
-            for via in [Via::Lib, Via::Http] {
-                if via == Via::Http && backend == Backend::Mem && tier == Tier::Quick {
+        for (backend, via, n) in [
+            (Backend::Mem, Via::Lib, tier.pick(300usize, 1500)),
+            (Backend::Mem, Via::Http, tier.pick(0usize, 1500)),
+            (Backend::Sqlite, Via::Lib, tier.pick(300usize, 1500)),
+            (Backend::Sqlite, Via::Http, tier.pick(300usize, 1500)),
+            (Backend::Mem, Via::Lib, tier.pick(4300usize, 12_000)),
+            (Backend::Sqlite, Via::Lib, tier.pick(0usize, 4300)),
+        ] {
+            {
+                if n == 0 || (id == "C08" && n < 4000) {
                     continue;
                 }
                 let mut ops = vec![];
@@ -317,8 +324,22 @@ pub fn run(id: &str, tier: Tier, seed: u64) -> Report {
                         ops.push(Op::Reopen);
                     }
                 }
+                // at the very end: the children of the chain's base, of nil and of an old version
+                ops.push(Op::GetChild { c: 0, parent: IdRef::Base(0) });
+                ops.push(Op::GetChild { c: 0, parent: IdRef::Nil });
+                ops.push(Op::GetChild { c: 0, parent: IdRef::Ancestor(0, 250) });
                 cases.push(HCase { backend, via, case: Case { cfg: Cfg { snapshot_days: 14, snapshot_versions: 100 }, salt: 2, nclients: 1, ops } });
             }
+        }
+        if id == "C01" && tier == Tier::Thorough {
+            // volume: more than a gibibyte of history in the in-memory backend (twelve versions of
+            // 95 MiB through the library; about 2.5 GB of RAM while it runs)
+            let mut ops = vec![];
+            for i in 0..12u32 {
+                ops.push(Op::AddVersion { c: 0, parent: if i == 0 { IdRef::Nil } else { IdRef::Latest(0) }, data: BytesSpec { len: 95 << 20, class: 0, seed: i } });
+            }
+            ops.push(Op::GetChild { c: 0, parent: IdRef::Latest(0) });
+            cases.push(HCase { backend: Backend::Mem, via: Via::Lib, case: Case { cfg: Cfg::default(), salt: 2, nclients: 1, ops } });
         }
         let mut r = engine::enumerate(id, "history", cases, |hc, st| check(id, hc, st));
         r.exhaustive = false;
